@@ -124,6 +124,9 @@ def motion_notify_rule(ctx, cg=None):
 
 
 def run(ctx):
+    from ..shared import snapshot_rule as _snapshot_rule
+
+    _snapshot_rule(ctx, "R14.18", scope=lambda ci: ci.module.name.startswith(("EasyFEA.Models", "EasyFEA.Simulations")))
     from ..shared import flag_pair_rule as _flag_pair_rule
 
     _flag_pair_rule(ctx, "R14.16", scope=lambda f, _s=("EasyFEA.FEM", "EasyFEA.Simulations", "EasyFEA.Models"): f.module.name.startswith(_s), min_instances=1)
